@@ -748,13 +748,13 @@ def run(ctx):
     # the conservation oracle; then the font support lattice: every decomposable character x every subset of the glyphs
     # its normalization can depend on x every shaper, on fonts that map every character of the text
     env = L.Env(shim)
-    L.promote_norm_run(ctx, shim, env, dis, ctx.budget(40, 300), [L.judge_conservation], "norm-run-selectors")
+    L.promote_norm_run(ctx, shim, env, dis, ctx.budget(40, 300), [L.judge_conservation_p], "norm-run-selectors")
     # C08_decompose_current_conserves is a statement about Norm.decomposeCurrentCharacter in every mode: its tie to the crate
     # is the same protocol on lattice requests (multi-level decompositions on fonts with partial support)
     dis2 = ctx.correspond("norm-run-lattice", lines=L.lattice_run_lines(ctx.rng("norm-lattice"), ctx.budget(6000, 150000), 1),
                           classify=C09.classify_run)
     if dis2:
-        L.promote_norm_run(ctx, shim, env, dis2, ctx.budget(40, 300), [L.judge_conservation], "norm-run-lattice")
+        L.promote_norm_run(ctx, shim, env, dis2, ctx.budget(40, 300), [L.judge_conservation_p], "norm-run-lattice")
     L.search(ctx, shim, env, ctx.rng("lattice"), ("decomposable", "plain"),
              lambda c, S, text, tag: all(x in S for x in text), [L.judge_conservation], LATTICE_RULE)
     recomposed_witness(ctx, shim)
@@ -768,7 +768,7 @@ def replay(ctx, rp):
     if rp.get("stream") == L.STREAM:
         return L.replay(shim, rp, [L.judge_conservation])
     if rp.get("stream") == L.PROMOTED:
-        return L.replay_promoted(shim, rp, [L.judge_conservation])
+        return L.replay_promoted(shim, rp, [L.judge_conservation_p])
     o = vlib.run_groups(shim, [[rp["font_line"], rp["request"]]], nproc=1)[0]
     print(o[1])
     if "glyph_chars" in rp:
